@@ -89,10 +89,23 @@ def apply_rewrites(text, rewrites, log, key):
     return text
 
 
+def _cond(txt, body):
+    """{{if_has:IDENT}} ... {{end}} blocks in spliced texts are kept only if IDENT occurs (as an identifier) in the extracted function:
+    an invariant may mention a local of the code without turning the local's removal into a compile error (it then simply is not stated,
+    and whatever it supported fails as an obligation)."""
+    def rep(m):
+        return m.group(2) if re.search(r'\b%s\b' % re.escape(m.group(1)), body) else ''
+    return re.sub(r'\{\{if_has:(\w+)\}\}(.*?)\{\{end\}\}', rep, txt, flags=re.S)
+
+
 def splice_fn(text, item, key):
     """text starts at `fn`. Name the return value, insert contract before the body, insert loop
     invariants before loop bodies and proof blocks before anchors."""
     toks = lex(text)
+    item = dict(item)
+    item['contract'] = _cond(item.get('contract', '') or '', text)
+    item['loops'] = {k: _cond(v, text) for k, v in (item.get('loops') or {}).items()}
+    item['proofs'] = [(a, _cond(t, text)) for a, t in (item.get('proofs') or [])]
     # body open: first '{' at paren depth 0
     j = 0
     body = None
